@@ -2062,16 +2062,16 @@ impl Tree {
             }
 
             match c {
-                '"' => {
+                // A quote only delimits (part of) a name; in a branch length it is
+                // an ordinary character, which the float parser will refuse
+                '"' if parsing == Field::Name => {
                     // Enter or close quoted section (name)
                     // TODO: handle escaped quotes
                     within_quotes = !within_quotes;
-                    if parsing == Field::Name {
-                        if let Some(name) = current_name.as_mut() {
-                            name.push(c)
-                        } else {
-                            current_name = Some(c.into())
-                        }
+                    if let Some(name) = current_name.as_mut() {
+                        name.push(c)
+                    } else {
+                        current_name = Some(c.into())
                     }
                 }
                 '[' => {
